@@ -121,3 +121,26 @@ Proof.
   - apply (bracket_sound br l r HV SM has req s inner H0).
   - apply (bracket_sound br l r HV SM has req s inner H0).
 Qed.
+
+(* ---- Name and Label: the live classes are the modelled calls with the modelled regular expressions *)
+Lemma name_and_label_tied : name_class_tied = true /\ label_class_tied = true.
+Proof. split; reflexivity. Qed.
+
+Theorem live_name_class :
+  name_class_tied = true /\
+  (forall n, is_name n = true -> name_match n = Some n) /\
+  (forall b1 b2 n, blanks b1 -> blanks b2 -> is_name n = true -> name_match (b1 ++ n ++ b2) = Some n) /\
+  (forall s n, name_match s = Some n -> is_name n = true /\ n = strip s) /\
+  label_class_tied = true /\
+  (forall s l, label_match s = Some l -> l = s /\ 1 <= List.length s <= 5 /\ forallb is_digit s = true).
+Proof.
+  destruct name_and_label_tied as [A B]. repeat split; try assumption.
+  - apply name_roundtrip.
+  - apply name_blanks_around.
+  - apply (name_sound s n H).
+  - apply (name_sound s n H).
+  - apply (label_sound s l H).
+  - apply (label_sound s l H).
+  - apply (label_sound s l H).
+  - apply (label_sound s l H).
+Qed.
